@@ -637,6 +637,10 @@ class ProgGenExt(ProgGen):
             cands = [b for b in self.env if b != a and _bcast_to_ok(self.env[b].shape, tgt.shape)
                      and not ("swv" in self.tags.get(b, ()) and "swv-consumer" in self.avoid)]
             v = self.rng.choice(cands) if cands else self.rng.randint(-9, 9)
+            if isinstance(v, str) and self.env[v].ndim:
+                # a multi-chunk dask value makes SetItem raise at compute time on the unchanged tree
+                # (concatenate3 called with 2 arguments; reported, not a graph property): single-chunk it
+                v = self.add({"op": "rechunk", "args": [v], "chunks": [[d] for d in self.env[v].shape]})
         return self.add({"op": "setitem", "args": [a], "index": _enc_index(idx), "value": v}, tags=("setitem",))
 
     def g_astype(self):
@@ -710,7 +714,7 @@ def in_known_class(prog, npenv=None):
         up = set().union(*[anc.get(a, set()) for a in args]) if args else set()
         if isinstance(st.get("value"), str):
             up |= anc.get(st["value"], set())
-        if st["op"] in ("broadcast_to", "repeat", "setitem", "tile") and "swv_reduce" in up:
+        if st["op"] in ("broadcast_to", "repeat", "setitem", "tile", "swv_reduce") and "swv_reduce" in up:
             return "swv-layout-drift"
         if st["op"] == "getitem" and "swv_reduce" in up and npenv[st["out"]].size == 0:
             return "swv-layout-drift"
